@@ -25,11 +25,13 @@ def mechanism(draw):
     elems = ELEMS[:nel]
     comp = st.dictionaries(st.sampled_from(elems), st.integers(1, 4), min_size=1, max_size=nel)
     nsite = draw(st.integers(1, 3))
-    share_bulk = draw(st.booleans())
+    # each site names its bulk species: all distinct, all shared, or shared by some (also non-adjacent) sites only
+    share_bulk = draw(st.sampled_from(['none', 'all', 'some']))
     sites = []
     for k in range(nsite):
+        bname = {'none': 'M%d(B)' % k, 'all': 'M(B)'}.get(share_bulk) or draw(st.sampled_from(['M(B)', 'M1(B)']))
         sites.append({'name': 'SITE%d' % k, 'sden': draw(gen.logf(1e-11, 1e-8)), 'density': draw(st.floats(1, 25)),
-                      'bulk': 'M(B)' if share_bulk else 'M%d(B)' % k})
+                      'bulk': bname})
     gas = [{'name': 'G%d' % i, 'elements': draw(comp), 'th': draw(thermo_st())} for i in range(draw(st.integers(1, 6)))]
     ads = []
     for j in range(draw(st.integers(1, 8))):
